@@ -233,10 +233,10 @@ def run_wideint_writes(cases, res):
 
 def shard(shard, nshards, rng, tier, extra):
     res = Result()
-    n = (3000 if tier == 'quick' else 60000) // nshards
+    n = (9000 if tier == 'quick' else 60000) // nshards
     run_batch([gen_history(rng) for _ in range(n)], res)
-    run_complex_writes([gen_complex_write(rng) for _ in range((600 if tier == 'quick' else 12000) // nshards)], res)
-    run_wideint_writes([gen_wideint_write(rng) for _ in range((600 if tier == 'quick' else 12000) // nshards)], res)
+    run_complex_writes([gen_complex_write(rng) for _ in range((1800 if tier == 'quick' else 12000) // nshards)], res)
+    run_wideint_writes([gen_wideint_write(rng) for _ in range((1800 if tier == 'quick' else 12000) // nshards)], res)
     return res
 
 def run(seed, tier):
